@@ -5,7 +5,7 @@ import copy
 from props import _transfer_common as TC
 
 PROPERTY = "C11"
-GEN: list = []
+GEN: list = ["transfer"]
 RULE = (
     "scenario = universe (3-6 file contents incl. the empty one, 1-4 flat listings sharing files, per-scenario salt) "
     "x source (complete / listed files missing / corrupt file object / corrupt-but-parseable, unparseable or missing "
